@@ -135,6 +135,7 @@ async fn start_streaming<
     senders: &Senders,
     stream_events: StreamEvents,
     extra_message: Option<ToClientMessage>,
+    flush_journal: bool,
 ) where
     Tx::Error: Debug,
 {
@@ -158,6 +159,13 @@ async fn start_streaming<
     } else {
         None
     };
+
+    // The flush suspends this connection while the rest of the server goes on. It has to happen
+    // only after the listener is registered, otherwise events emitted in the meantime
+    // (e.g. JobCompleted of a job that the client is going to wait for) would be lost.
+    if flush_journal {
+        senders.events.flush_journal().await;
+    }
 
     if let Some(msg) = extra_message {
         let _ = tx.send(msg).await;
@@ -208,9 +216,6 @@ pub async fn client_rpc_loop<
                 let response = match message {
                     FromClientMessage::Submit(msg, stream_opts) => {
                         let response = submit::handle_submit(&state_ref, senders, msg);
-                        if !response.is_error() {
-                            senders.events.flush_journal().await;
-                        };
                         if let Some(mut stream_opts) = stream_opts
                             && let ToClientMessage::SubmitResponse(SubmitResponse::Ok {
                                 job, ..
@@ -221,6 +226,8 @@ pub async fn client_rpc_loop<
                                 s.insert(job.info.id);
                                 stream_opts.filter.set_jobs(s);
                             }
+                            // The journal is flushed (before the response is sent) by
+                            // `start_streaming`, once the event listener is registered
                             start_streaming(
                                 tx,
                                 rx,
@@ -228,10 +235,14 @@ pub async fn client_rpc_loop<
                                 senders,
                                 stream_opts,
                                 Some(response),
+                                true,
                             )
                             .await;
                             break;
                         }
+                        if !response.is_error() {
+                            senders.events.flush_journal().await;
+                        };
                         response
                     }
                     FromClientMessage::JobInfo(msg, stream_opts) => {
@@ -253,6 +264,7 @@ pub async fn client_rpc_loop<
                                 senders,
                                 stream_opts,
                                 Some(response),
+                                false,
                             )
                             .await;
                             break;
@@ -314,7 +326,7 @@ pub async fn client_rpc_loop<
                         response
                     }
                     FromClientMessage::StreamEvents(msg) => {
-                        start_streaming(tx, rx, state_ref, senders, msg, None).await;
+                        start_streaming(tx, rx, state_ref, senders, msg, None, false).await;
                         break;
                     }
                     FromClientMessage::ServerInfo => {
